@@ -25,6 +25,9 @@ type KnownFinding struct {
 	Witness    string `json:"witness,omitempty"`
 }
 
+// candidateReplays bounds the number of candidate-model replays per run (each costs a solver session and a go test)
+var candidateReplays int
+
 type propUnit struct {
 	ct    *Contract
 	kinds map[string]bool // nil = all kinds
@@ -353,6 +356,17 @@ func runProperty(g *Gen, prop, tier, out string, cfg SolverCfg, t0 time.Time) in
 			}
 		} else if ob.Result != "unsupported" && ob.Result != "missing" {
 			rep["verifier_output"] = "no model: solvers answered " + ob.Result + " (" + ob.Detail + ")"
+			// the solver may still hold a candidate model: it is tried on the real code, and counts only if the
+			// concrete input passes the unit's preconditions and then violates the clause (replay.go)
+			if v.unit != nil && (ob.Result == "unknown" || ob.Result == "timeout") && (ob.Kind == "ensures" || ob.Kind == "safety") && candidateReplays < 3 {
+				candidateReplays++
+				rr := Replay(g, v.unit, ob, cfg, rpDir)
+				rep["replay"] = rr
+				if rr.Status == "confirmed" {
+					suffix = ""
+					rep["verifier_output"] = "the solvers answered " + ob.Result + "; the candidate model of z3 5.1.0 was built as a concrete input, passes the unit's preconditions and violates the clause on the real code"
+				}
+			}
 		}
 		// a committed witness for this obligation (a concrete failing input found earlier and kept
 		// under /verif/witness) is replayed on the current tree
